@@ -626,7 +626,11 @@ type Listing struct {
 func (s *Sim) List() (*Listing, error) {
 	ctx := context.Background()
 	l := &Listing{TagKeys: map[string][]string{}, TagValues: map[string]map[string][]string{}}
-	names, err := s.Store.MeasurementNames(ctx, nil, DB, RP, nil)
+	rp := RP
+	if s.Opts.Index == "inmem" {
+		rp = "" // the inmem index does not support a retention-policy filter
+	}
+	names, err := s.Store.MeasurementNames(ctx, nil, DB, rp, nil)
 	if err != nil {
 		return nil, fmt.Errorf("MeasurementNames: %w", err)
 	}
